@@ -34,9 +34,14 @@ def r_dense_indep(rep, f):
             continue
         phis = set()
         sites = 0
+        dense_bufs = set()
+        cond_of = {id(ev["node"]): ev["cond"] for ev in sx.trace if ev["kind"] == "if"}
         for ev in sx.trace:
-            if ev["kind"] == "joinphi" and tast.contains(ev["node"]["cond"], lambda x: x.get("k") == "Field" and (x.get("fdef") or "").endswith("::dense_output")):
+            if ev["kind"] == "joinphi" and rk.is_dense_cond(ev["node"], cond_of.get(id(ev["node"]))):
                 sites += 1
+                for k, v in ev["created"].items():
+                    if isinstance(v, Buf):
+                        dense_bufs.add(k)
                 for k, v in ev["created"].items():
                     if isinstance(v, Poly):
                         phis |= {a for a in v.atoms() if a.startswith("phi~")}
@@ -65,6 +70,20 @@ def r_dense_indep(rep, f):
                     n += 1
                     if reaches(pv, lambda a: a in phis):
                         bad.append(name)
+        # buffers written only under the dense_output branch must be dead at the loop head: their (generic) head content
+        # must not flow into anything carried
+        for k in dense_bufs:
+            hb = (hk.head or {}).get(k)
+            if not isinstance(hb, Buf):
+                continue
+            pref = hb.name + "@"
+            for L in hk.latch:
+                for k2 in carried:
+                    v = L.get(k2)
+                    vals = [v] if isinstance(v, Poly) else ([pv for pv in v.blocks.values() if isinstance(pv, Poly)] if isinstance(v, Buf) and k2 in (hk.ykey,) + tuple(hk.slots) else [])
+                    for pv in vals:
+                        if reaches(pv, lambda a: a.startswith(pref)):
+                            bad.append("%s (through buffer `%s`, which is only written under dense_output but read by the next step)" % (sx.names.get(k2, k2), sx.names.get(k, k)))
         if bad:
             rep.violation("R-DENSE-INDEP", key, "value(s) carried to the next iteration depend on the stepper's dense_output branch: %s" % sorted(set(bad))[:4],
                           hk.main_loop.get("sp"))
